@@ -1056,6 +1056,98 @@ impl SchedX {
                     }),
                 }
             }
+            // beatree BRANCH-stage workers: seed `mixed2` has two bottom branch nodes; one commit
+            // deletes most of the leaves below the first one (it falls below the merge threshold and
+            // its worker has to ask the right neighbour for nodes) and touches leaves below the second
+            "M3" | "M3b" => {
+                let mut cf = cfg();
+                cf.cc = 3;
+                cf.rollback = false;
+                cf.buckets = 4096;
+                let key = "mixed2".to_string();
+                if !self.seeds.contains_key(&key) {
+                    let seed = crate::histx::build_seed::<B3>("mixed2", &cf, &self.scratch);
+                    self.seeds.insert(key.clone(), Arc::new((seed.image.clone(), seed.model.kv.clone(), vec![crate::histx::seed_keys("mixed2")])));
+                }
+                let seed = self.seeds[&key].clone();
+                let dir = self.fresh();
+                seed.0.materialize(&dir).expect("materialize");
+                let n = Arc::new(open_nomt::<B3>(&dir, &cf).expect("open"));
+                let errs = Arc::new(Mutex::new(Vec::<String>::new()));
+                let (n1, e1) = (n.clone(), errs.clone());
+                let variant = name.to_string();
+                let seed2 = seed.clone();
+                let dir2 = dir.clone();
+                Execution {
+                    threads: vec![Box::new(move || {
+                        use crate::driver::Act;
+                        let keys = &seed2.2[0];
+                        // cluster keys are those starting with 0x77 (700 of them, sorted)
+                        let cluster: Vec<Key> = keys.iter().filter(|k| k[0] == 0x77 && k[1] == 0x77).cloned().collect();
+                        let mut batch: Vec<(Key, Act)> = vec![];
+                        let (lo, hi) = if variant == "M3" { (6usize, 430usize) } else { (120usize, 560usize) };
+                        for k in &cluster[lo..hi] {
+                            batch.push((*k, Act::Write(None)));
+                        }
+                        for i in [640usize, 641, 650, 651, 652, 690] {
+                            batch.push((cluster[i], if i % 2 == 0 { Act::Write(None) } else { Act::Write(Some(val(60))) }));
+                        }
+                        batch.sort_by(|a, b| a.0.cmp(&b.0));
+                        let s = n1.begin_session(SessionParams::default());
+                        let actuals = match crate::driver::Db::<B3>::actuals(&s, &batch, &seed2.1) {
+                            Ok(a) => a,
+                            Err(m) => {
+                                e1.lock().unwrap().push(m);
+                                return;
+                            }
+                        };
+                        let fin = match s.finish(actuals) {
+                            Ok(f) => f,
+                            Err(e) => {
+                                e1.lock().unwrap().push(format!("finish failed: {e:#}"));
+                                return;
+                            }
+                        };
+                        let mut after = seed2.1.clone();
+                        crate::refmodel::Model::apply(&mut after, &crate::driver::writes_of(&batch));
+                        sc::control_group(sc::BEATREE_WORKERS, true);
+                        let r = fin.commit(&n1);
+                        sc::control_group(sc::BEATREE_WORKERS, false);
+                        if let Err(e) = r {
+                            e1.lock().unwrap().push(format!("commit failed: {e:#}"));
+                            return;
+                        }
+                        let mut m = crate::refmodel::Model::new(false, 0);
+                        m.kv = after;
+                        m.seqn = n1.sync_seqn();
+                        let mut akeys: Vec<Key> = keys.iter().step_by(5).cloned().collect();
+                        akeys.extend(cluster[lo.saturating_sub(6)..lo + 3].iter().cloned());
+                        akeys.extend(cluster[hi - 3..hi + 6].iter().cloned());
+                        if let Err(x) = crate::driver::audit::<B3>(&n1, &m, &akeys, crate::driver::AuditFlags::ALL) {
+                            e1.lock().unwrap().push(format!("after the commit: {x}"));
+                            return;
+                        }
+                        match DirImage::snapshot(&dir2) {
+                            Ok(img) => {
+                                let opts = crate::imgdec::CheckOpts { structure: true, kv_equals_model: true, merkle: true, leaks: true };
+                                if let Err(x) = crate::imgdec::check_image::<B3>(&img, &m.kv, &opts) {
+                                    e1.lock().unwrap().push(format!("on-disk image after the commit: {x}"));
+                                }
+                            }
+                            Err(e) => e1.lock().unwrap().push(format!("snapshot: {e}")),
+                        }
+                    })],
+                    finish: Box::new(move || {
+                        sc::control_group(sc::BEATREE_WORKERS, false);
+                        let e = errs.lock().unwrap().clone();
+                        drop(n);
+                        if !e.is_empty() {
+                            return Err(e.join("; "));
+                        }
+                        Ok("ok".into())
+                    }),
+                }
+            }
             _ => panic!("unknown harness {name}"),
         }
     }
@@ -1102,6 +1194,13 @@ pub fn worker_schedule_cases(thorough: bool) -> Vec<Value> {
     for h in ["M2del", "M2shrink", "M2wipe"] {
         // the whole schedule space of these harnesses is a few hundred executions: bound 99 = all
         for b in [0u64, 1, 2, 99] {
+            cases.push(json!({"harness": h, "bound": b, "max_exec": if thorough { 400000 } else { 3000 }, "budget_s": if thorough { 1500 } else { 35 }}));
+        }
+    }
+    // branch-stage workers (two bottom branch nodes, the first one emptied below the merge
+    // threshold): ≈ 115 ms per execution and a schedule space in the thousands — preemption-bounded
+    for h in ["M3", "M3b"] {
+        for b in if thorough { vec![0u64, 1, 2] } else { vec![0u64] } {
             cases.push(json!({"harness": h, "bound": b, "max_exec": if thorough { 400000 } else { 3000 }, "budget_s": if thorough { 1500 } else { 35 }}));
         }
     }
